@@ -20,6 +20,7 @@ from __future__ import annotations
 
 import ast
 import itertools
+import os
 import sys
 import threading
 from typing import Any, Callable, Dict, List, Optional
@@ -878,7 +879,7 @@ class World:
 
     # -- folder with the stubs ---------------------------------------------------------------------------------------------
     def new_folder(self) -> Folder:
-        f = Folder(self.repo, allow_loops=True, max_steps=10 ** 9)
+        f = Folder(self.repo, allow_loops=True, max_steps=int(os.environ.get('SA_PROC_STEPS', '3000000')))
         if hasattr(self, 'folder0'):
             base = self.folder0
             f.stubs, f.method_stubs, f.class_stubs, f.external_attrs = base.stubs, base.method_stubs, base.class_stubs, base.external_attrs
@@ -1035,6 +1036,8 @@ class World:
             p.folder = f
 
             def on_stmt(st, env, mod, ci):
+                if self.sched.killing and not p.finished():
+                    raise Killed()
                 if not self.sched.killing and p.state == 'running' and not p.frozen:
                     p.cur_stmt, p.cur_mod = st, mod
             f.on_stmt = on_stmt
